@@ -590,6 +590,7 @@ class C12(PropertyCheck):
         "QipVerif.C12.coefficient_length_fits",
         "QipVerif.C12.discrete_channel_is_schedule",
         "QipVerif.C12.continuous_channel_is_schedule",
+        "QipVerif.C12.every_channel_points_are_schedule",
         "QipVerif.C12.scale_counterexample",
         "QipVerif.C12.gap_counterexample",
     ]
